@@ -1226,6 +1226,34 @@ func genC05(w *bufio.Writer, seed int64, n int, tier string) {
 			fmt.Fprintf(w, "end\n")
 			continue
 		}
+		if ci%40 == 33 {
+			// one table of more than 16 data blocks (the index block gets a second restart point),
+			// scans that start in the data blocks around that point and run on across it
+			fmt.Fprintf(w, "case %s stack=1\n", id)
+			fmt.Fprintf(w, "mem\ne %s %s %d\n", mkTok([]byte("k0007")), mkTok([]byte("m")), 9000)
+			fmt.Fprintf(w, "sst\n")
+			nk := 1850 + r.Intn(100)
+			for j := 0; j < nk; j++ {
+				fmt.Fprintf(w, "e %s @%d:%d\n", mkTok([]byte(fmt.Sprintf("k%04d", j))), 640+r.Intn(20), r.Intn(1<<20))
+			}
+			for sct := 0; sct < 10; sct++ {
+				a := 15*96 + r.Intn(3*96) // entries of blocks 15..17 (about 96 entries per 64 KB block)
+				if sct%5 == 4 {
+					a = r.Intn(nk)
+				}
+				b := a + 100 + r.Intn(200)
+				switch sct % 3 {
+				case 0:
+					fmt.Fprintf(w, "iter full\nseek %s\nscan 250\n", mkTok([]byte(fmt.Sprintf("k%04d", a))))
+				case 1:
+					fmt.Fprintf(w, "iter range %s %s\nfirst\nscan 400\n", mkTok([]byte(fmt.Sprintf("k%04d", a))), mkTok([]byte(fmt.Sprintf("k%04d", b))))
+				default:
+					fmt.Fprintf(w, "iter full\nseek %s\nnext\nscan 250\n", mkTok([]byte(fmt.Sprintf("k%04dx", a))))
+				}
+			}
+			fmt.Fprintf(w, "end\n")
+			continue
+		}
 		if ci%20 == 13 {
 			// explicit stack with a multi-block SSTable that no memtable shadows: positioned
 			// scans (Seek / range start) that begin in one data block and run on across the
